@@ -434,20 +434,34 @@ impl<H: HttpClient + Clone> StreamingCdnResolver<H> {
         Ok(arc_index)
     }
 
-    /// Group requests by archive using archive group index
-    #[allow(clippy::unused_self)] // Will use self when archive group index is implemented
+    /// Group requests by the archive whose loaded index lists their key
+    ///
+    /// The indices known to the resolver are the ones loaded by
+    /// `preload_indices` / `resolve_from_archive`. A key that none of them
+    /// lists belongs to no group (`resolve_multiple` leaves it out,
+    /// `resolve_content` reports it as not found). When several archives
+    /// hold a key, the one with the smallest hash is used.
     fn group_requests_by_archive(
         &self,
         requests: &[ContentResolutionRequest],
     ) -> HashMap<String, Vec<ContentResolutionRequest>> {
-        // For now, assume all content is in a single archive
-        // In a real implementation, this would use the archive group index
-        // to determine which archive contains each piece of content
+        let mut hashes: Vec<&String> = self.cached_indices.keys().collect();
+        hashes.sort();
 
-        let mut groups = HashMap::new();
-        let default_archive = "default_archive".to_string();
-
-        groups.insert(default_archive, requests.to_vec());
+        let mut groups: HashMap<String, Vec<ContentResolutionRequest>> = HashMap::new();
+        for request in requests {
+            let holder = hashes.iter().find(|hash| {
+                self.cached_indices
+                    .get(**hash)
+                    .is_some_and(|index| index.find_entry(&request.encoding_key).is_some())
+            });
+            if let Some(hash) = holder {
+                groups
+                    .entry((*hash).clone())
+                    .or_default()
+                    .push(request.clone());
+            }
+        }
 
         groups
     }
@@ -659,6 +673,12 @@ impl<H: HttpClient + Clone> BatchContentResolver<H> {
     ) -> Result<HashMap<Vec<u8>, ContentResolutionResult>, StreamingError> {
         if requests.is_empty() {
             return Ok(HashMap::new());
+        }
+
+        if self.resolvers.is_empty() {
+            return Err(StreamingError::Configuration {
+                reason: "Batch resolver has no resolvers".to_string(),
+            });
         }
 
         // Distribute requests across resolvers
